@@ -296,7 +296,7 @@ func realStepToJSON(s *planner.QueryPlanStep) map[string]interface{} {
 		opn = *s.OperationName
 	}
 	return map[string]interface{}{"url": s.URL, "parentType": s.ParentType, "ip": ip,
-		"sels": normSels(toGeneric(hx.SelSetToJSON(s.SelectionSet)).([]interface{}), false),
+		"sels":          normSels(toGeneric(hx.SelSetToJSON(s.SelectionSet)).([]interface{}), false),
 		"variablesList": vl, "opName": opn, "header": headerOfQueryString(s.QueryString), "then": sortSteps(then)}
 }
 
@@ -461,7 +461,6 @@ func modelSubRequestKey(url string, rq map[string]interface{}) string {
 	vars, _ := rq["variables"].(map[string]interface{})
 	return url + "|" + kind + "|" + hx.Canon(normSels(sels, true)) + "|" + canonVars(vars)
 }
-
 
 // foreignLookupID: a follow-up lookup `node(id: $id)` must carry, as $id, the id of an entity of
 // the data set (the id found at its insertion point) — never a value that came from the client.
